@@ -133,8 +133,19 @@ func (ix *PointIndex) InsertPolygon(polygon geom.Polygon) error {
 // InsertPoint inserts a Point by its absolute coord
 func (ix *PointIndex) InsertPoint(point geom.Point) error {
 	intPoint := intgeom.FromGeomPoint(point)
-	deepestX := int((intPoint.X() - ix.intExtent.MinX()) / ix.deepestRes)
-	deepestY := int((intPoint.Y() - ix.intExtent.MinY()) / ix.deepestRes)
+	dx := intPoint.X() - ix.intExtent.MinX()
+	dy := intPoint.Y() - ix.intExtent.MinY()
+	if dx < 0 || dy < 0 {
+		// Integer division truncates toward zero, so without this check a point less than
+		// one pixel left of or below the extent would end up in the border pixel (coord 0).
+		return OutsideGridError{
+			deepestX:    int(math.Floor(float64(dx) / float64(ix.deepestRes))),
+			deepestY:    int(math.Floor(float64(dy) / float64(ix.deepestRes))),
+			deepestSize: ix.deepestSize,
+		}
+	}
+	deepestX := int(dx / ix.deepestRes)
+	deepestY := int(dy / ix.deepestRes)
 	return ix.InsertCoord(deepestX, deepestY)
 }
 
